@@ -749,3 +749,8 @@ SPECS["C06"]["level_text"] += ("; RolandS7xxImage.set_routines installs the nami
 # C18: the encoder at string level (byte strings of 0..3 characters)
 SPECS["C18"]["contracts"] += [f"smpl_extract.akai.akai_string:char_ascii_to_akai[bytes,len={k}]" for k in (0, 1, 2, 3)]
 SPECS["C18"]["level_text"] += "; char_ascii_to_akai converts a byte string character by character through the table and rejects the whole string when ONE byte is outside the 41 (lengths 0..3)"
+
+# C15 on the other two image kinds
+SPECS["C15"]["bounded"].append(("contracts.e2e_more", "e2e:C15-roland-cdda"))
+SPECS["C15"]["level_text"] += ". Added: BOUNDED truncation sweeps of a Roland image (cluster boundaries, header / table areas, random offsets) and of bin/cue images"
+SPECS["C15"]["not_covered"] = ["volume/partition table truncation handlers beyond PartitionAdapter._parse / FileAdapter._parse / _load_partitions as contracts"]
